@@ -490,7 +490,8 @@ def runOp (s : Sexp) : String :=
           | none => "bad-op")
        | _ => "builderr")
     | _, _, _, _ => "bad-op"
-  | .list [.atom "decm", cfgS, td, .atom tag, v, prior] =>
+  -- (decm cfg T tag V PRIOR [stale | stale0 FULL]): the optional tail only shapes the target's spare capacity
+  | .list (.atom "decm" :: cfgS :: td :: .atom tag :: v :: prior :: _) =>
     match parseCfg cfgS, parseTyDef td, parseHexStr tag, parseVal v with
     | some c, some d, some t, some v =>
       (match buildTop c d t with
@@ -548,6 +549,14 @@ def runOp (s : Sexp) : String :=
        | .ok tye, .ok tyd => showRes (showValTD d tyd) (unmarshal tyd (marshal tye (coerceIn tye v)) tyd.zero)
        | _, _ => "builderr")
     | _, _, _, _ => "bad-op"
+  -- (xdecm cfgEnc cfgDec tydef val PRIOR [stale]): the same into a populated target
+  | .list (.atom "xdecm" :: cfgE :: cfgD :: td :: v :: prior :: _) =>
+    match parseCfg cfgE, parseCfg cfgD, parseTyDef td, parseVal v, parseVal prior with
+    | some ce, some cd, some d, some v, some p =>
+      (match buildTop ce d "", buildTop cd d "" with
+       | .ok tye, .ok tyd => showRes (showValTD d tyd) (unmarshal tyd (marshal tye (coerceIn tye v)) (coerceIn tyd p))
+       | _, _ => "builderr")
+    | _, _, _, _, _ => "bad-op"
   -- (laws cfg tydef tag val xTAGBYTES): Size, Append, Read-consumed on the codec itself
   | .list [.atom "laws", cfgS, td, .atom tag, v, .atom tb] =>
     match parseCfg cfgS, parseTyDef td, parseHexStr tag, parseVal v, parseHex tb with
